@@ -143,11 +143,14 @@ def run(ctx, tier):
                                (t['args'][0].get('move') or t['args'][0].get('copy')) is not None and
                                fn.place_terms((t['args'][0].get('move') or t['args'][0].get('copy')), (bi, fn.nstmts(bi)), mut_kills=False) == cont]
                     if b.impl_trait:
-                        ok = any(t['func'].get('path') == VEC_CLEAR for _bi, t in touches) and not any(pu['fn'] is fn for pu in pushes)
+                        clears = {bi for bi, t in touches if t['func'].get('path') == VEC_CLEAR}
+                        reach_nc = fn.reachable(0, stop=frozenset(clears))
+                        ok = bool(clears) and not any(rb in reach_nc and rb not in clears for rb in fn.return_blocks()) and \
+                            not any(pu['fn'] is fn for pu in pushes)
                         r_re.inst('%s clears self.%s' % (b.path, cname), ok=ok, site=b.loc(0))
                         if not ok:
                             r_re.violations.append(Violation('C02', 'C02.reroot', b.path, 'reroot:' + cname,
-                                                             'setup does not clear self.%s (a roadmap built for another checker survives)' % cname, loc=b.loc(0)))
+                                                             'setup does not clear self.%s on every path (a roadmap built for another problem / checker survives)' % cname, loc=b.loc(0)))
                     else:
                         ok = not touches
                         r_re.inst('%s leaves self.%s untouched' % (b.path, cname), ok=ok, site=b.loc(0))
